@@ -5,65 +5,23 @@
   ASCII, and `\u{…}` with lower-case hex for everything else, for every Unicode scalar), with the amount of fuel the
   model's reader supplies; escaped text contains no line break, so a source line stays one table row; decimal fields
   (block lengths, line numbers, label positions) are read back as the number written.
-  Not proved: the table layout (padding, `splitn`, trimming, sorting of rows), the `.TEXT` section and the composition
-  into `deserialize (serialize o) = o`; these are exercised by the correspondence check: the model's writer is compared
-  byte for byte with the implementation's and both readers must return the original object file.
+  Session 5 (`Txt.text_section_roundtrip`, Lemmas/TxtBlocks): for every object file without a symbol table — any block
+  list as the assembler and linker produce it — `deserialize (serialize o) = some o`: the whole reader pipeline
+  (`trim`, `str::lines`, comment/blank-line filters, grouping, the `.TEXT` block reader, four-digit hex and decimal
+  fields, `????` for uninitialised words) inverts the writer.
+  Not proved: the symbol, linker-info and debug tables (padding, `splitn`, trimming, sorting of rows) and hence the
+  round trip of files *with* a symbol table; these are exercised by the correspondence check: the model's writer is
+  compared byte for byte with the implementation's and both readers must return the original object file.
+  The theorems of the first paragraph are in Lemmas/C18Core.lean.
 -/
-import Lc3V.Lemmas.Escape
-import Lc3V.Lemmas.PrintLex
-set_option linter.unusedSimpArgs false
+import Lc3V.Lemmas.C18Core
+import Lc3V.Lemmas.TxtBlocks
 namespace Lc3V.C18
 open Lc3V Txt
 
-/-- source text survives escaping and unescaping, for every string -/
-theorem source_text_roundtrip (s : Text) : unescape ((escapeDefault s).length + 1) (escapeDefault s) [] = some s := by
-  have := unescape_escapeDefault s ((escapeDefault s).length + 1) [] (by have := escapeDefault_length s; omega)
-  simpa using this
-
-/-- an escaped line never contains a line break or carriage return, so it stays one row of the line table -/
-theorem escaped_has_no_newline (s : Text) : ∀ c ∈ escapeDefault s, c ≠ '\n' ∧ c ≠ '\r' := by
-  intro c hc
-  unfold escapeDefault at hc
-  obtain ⟨x, _, hx⟩ := List.mem_flatMap.mp hc
-  unfold escapeDefaultChar at hx
-  repeat' split at hx
-  all_goals try (simp only [List.mem_cons, List.mem_nil_iff, or_false] at hx; rcases hx with rfl | rfl <;> decide)
-  · rename_i h1 h2 h3 _ _ _ _
-    simp only [List.mem_singleton] at hx; subst hx
-    exact ⟨h3, h2⟩
-  · -- \u{hex}
-    simp only [List.mem_append, List.mem_cons, List.mem_nil_iff, or_false, List.mem_map] at hx
-    rcases hx with (h | h) | h
-    · have : c ∈ "\\u{".toList := h
-      have : c ∈ ['\\', 'u', '{'] := this
-      simp only [List.mem_cons, List.mem_nil_iff, or_false] at this
-      rcases this with rfl | rfl | rfl <;> decide
-    · obtain ⟨d, hd, rfl⟩ := h
-      have hv := char_valid_range x
-      have := (hexLower_spec x.toNat (by rcases hv with h | h <;> omega)).1 d.toLower (List.mem_map.mpr ⟨d, hd, rfl⟩)
-      constructor <;> (intro e; rw [e] at this; simp [toDigit] at this)
-    · subst h; decide
-
-/-- decimal fields are read back as written (`parse::<usize>` of `{}`) -/
-theorem decimal_field_roundtrip (n : Nat) (hi : Int) (h : (n : Int) ≤ hi) (h0 : 0 ≤ hi) : parseUInt hi (natDigits n) = some n := by
-  unfold parseUInt
-  obtain ⟨d, ds, hds⟩ : ∃ d ds, natDigits n = d :: ds := by
-    cases hnd : natDigits n with
-    | nil => exact absurd hnd (natDigits_ne_nil _)
-    | cons d ds => exact ⟨d, ds, rfl⟩
-  have hdec := natDigits_isDec n
-  have hall : allDigits 10 (natDigits n) := fun x hx => IsDec.digit10 (hdec x hx)
-  have hs := digit_not_sign 10 (by omega) d (hall d (by rw [hds]; simp))
-  rw [hds, parseInt_nosign _ _ _ _ _ _ hs.1 hs.2, ← hds]
-  have := parseDigits_pos 10 (by omega) 0 hi (by omega) (natDigits n) hall 0 (by omega)
-  rw [show ((0:Nat):Int) = 0 from rfl] at this
-  rw [this]
-  have hv : valFrom 10 (natDigits n) 0 = n := valOf_natDigits n
-  rw [hv]
-  simp [h]
-
 def obligations : List Lean.Name :=
   [``source_text_roundtrip, ``escaped_has_no_newline, ``decimal_field_roundtrip, ``Lc3V.Txt.unescape_escapeDefault,
-   ``Lc3V.Txt.unescUnicode_hex, ``Lc3V.Txt.hexLower_spec]
+   ``Lc3V.Txt.unescUnicode_hex, ``Lc3V.Txt.hexLower_spec, ``Lc3V.Txt.kept_lines, ``Lc3V.Txt.hex2u16_hex4,
+   ``Lc3V.Txt.readText_blocks, ``Lc3V.Txt.text_section_roundtrip]
 
 end Lc3V.C18
